@@ -75,7 +75,11 @@ func (x *Exec) execStmt1(s ast.Stmt, st *State) flow {
 		if s.Tok == token.DEC {
 			op = "-"
 		}
-		lv.store(st, x.wrapArith(mk(SInt, op, cur, intLit(1)), x.typeOf(s.X)))
+		if f, ok := foldArith(op, cur, intLit(1)); ok && !(x.contract != nil && x.contract.Safety["wrap64"]) {
+			lv.store(st, f)
+		} else {
+			lv.store(st, x.wrapArith(mk(SInt, op, cur, intLit(1)), x.typeOf(s.X)))
+		}
 		return flow{normal: st}
 	case *ast.DeclStmt:
 		gd, ok := s.Decl.(*ast.GenDecl)
@@ -413,6 +417,15 @@ func (x *Exec) execAssign(s *ast.AssignStmt, st *State) {
 			}
 			if s.Tok == token.DEFINE {
 				if v, ok := x.info().Defs[id].(*types.Var); ok {
+					if len(s.Rhs) == len(s.Lhs) {
+						if lit, ok := ast.Unparen(s.Rhs[i]).(*ast.FuncLit); ok {
+							fr := x.top()
+							if fr.litVars == nil {
+								fr.litVars = map[*types.Var]*ast.FuncLit{}
+							}
+							fr.litVars[v] = lit
+						}
+					}
 					val := vals[i]
 					if i < len(fromTypes) {
 						val = x.convertNil(st, val, fromTypes[i], v.Type())
